@@ -23,7 +23,7 @@ LABEL_FLOORS = {'N>=2,C>=2': 0.4}
 
 def plan(tier):
     if tier == 'quick':
-        return [{'n': 100} for _ in range(8)]
+        return [{'n': 100} for _ in range(16)]
     units = [{'n': 1500, 'kind': k} for k in xf.LINEAR_KINDS]
     units += [{'n': 4000} for _ in range(16)]
     return units
